@@ -399,12 +399,13 @@ pub fn c16_builders() -> i32 {
         2 => d.add_derives_for(root.clone(), [p("S")], false),
         3 => d.add_derives_for(root.clone(), [p("R")], true),
         4 => d.add_attributes_for(leaf.clone(), [at("s")], false),
-        _ => d.add_attributes_for(root.clone(), [at("r")], true),
+        5 => d.add_attributes_for(root.clone(), [at("r")], true),
+        _ => d.add_attributes_for(root.clone(), [at("t")], false),
     };
     // every sequence of length <= 4 over the six operations
     let mut seqs: Vec<Vec<usize>> = vec![vec![]];
     let mut frontier: Vec<Vec<usize>> = vec![vec![]];
-    for _ in 0..4 { let mut next = vec![]; for s0 in &frontier { for op in 0..6 { let mut s1 = s0.clone(); s1.push(op); next.push(s1); } } seqs.extend(next.iter().cloned()); frontier = next; }
+    for _ in 0..4 { let mut next = vec![]; for s0 in &frontier { for op in 0..7 { let mut s1 = s0.clone(); s1.push(op); next.push(s1); } } seqs.extend(next.iter().cloned()); frontier = next; }
     'o: for seq in seqs {
         tried += 1;
         let mut d = DerivesRegistry::new();
@@ -419,9 +420,10 @@ pub fn c16_builders() -> i32 {
         if has(3) { root_d.insert(p("R")); leaf_d.insert(p("R")); }
         if has(4) { leaf_a.insert(at("s")); }
         if has(5) { root_a.insert(at("r")); leaf_a.insert(at("r")); }
+        if has(6) { root_a.insert(at("t")); }
         let rr = flat.resolve(&root); let lr = flat.resolve(&leaf);
         if rr.derives() != &root_d || rr.attributes() != &root_a || lr.derives() != &leaf_d || lr.attributes() != &leaf_a {
-            found = Some((format!("builder call sequence {seq:?} (0 all-derive, 1 all-attr, 2 specific derive Root, 3 recursive derive Root, 4 specific attr Leaf, 5 recursive attr Root)"),
+            found = Some((format!("builder call sequence {seq:?} (0 all-derive, 1 all-attr, 2 specific derive Root, 3 recursive derive Root, 4 specific attr Leaf, 5 recursive attr Root, 6 specific attr Root)"),
                 format!("Root has {}/{} derives/attrs (expected {}/{}), Leaf {}/{} (expected {}/{})", rr.derives().len(), rr.attributes().len(), root_d.len(), root_a.len(), lr.derives().len(), lr.attributes().len(), leaf_d.len(), leaf_a.len())));
             break 'o;
         }
